@@ -631,9 +631,9 @@ func c18Chaining(c *Ctx, dcs []dialClosure) {
 // ---- option order in the command
 
 type optClass struct {
-	name                                       string
+	name                                        string
 	resets, wraps, replacesTransport, needsHTTP bool
-	site                                       string
+	site                                        string
 }
 
 func classifyOption(c *Ctx, ctor *ssa.Function) optClass {
